@@ -128,13 +128,25 @@ def worker(seed, sub, n):
     from redun.value import get_type_registry
     reg = get_type_registry()
     out = []
-    for spec in specs_for(seed, sub, n):
+    backend = None
+    for j, spec in enumerate(specs_for(seed, sub, n)):
         hs = []
         for order in range(3):
             try:
                 hs.append(reg.get_hash(build(spec, order)))
             except Exception as e:
                 hs.append("raised:%s" % type(e).__name__)
+        # the hash under which the backend records the value (record_value passes the serialisation along)
+        if j % 3 == 0 or spec[0] in ("set", "frozenset"):
+            if backend is None:
+                from vlib import engine
+                backend = engine.new_backend()
+            for order in range(3):
+                try:
+                    hs.append(backend.record_value(build(spec, order)))
+                except Exception as e:
+                    backend.session.rollback()
+                    hs.append(hs[order] if hs[order].startswith("raised") else "record-raised:%s" % type(e).__name__)
         out.append(hs)
     json.dump(out, sys.stdout)
 
@@ -159,6 +171,8 @@ def main(ctx):
             ctx.ev()
             allh = [h for g in group for h in g[j]]
             ctx.count("hashes_compared", len(allh))
+            if any(len(g[j]) > 3 for g in group):
+                ctx.count("recorded_hashes_compared", sum(len(g[j]) - 3 for g in group))
             has_set = spec_has(spec, lambda s, top: s[0] in ("set", "frozenset"))
             if has_set:
                 ctx.count("values_with_sets")
@@ -178,6 +192,7 @@ def main(ctx):
                 ctx.sample({"spec": spec, "hash": allh[0]})
     ctx.require("hashes_compared", 10000)
     ctx.require("values_with_toplevel_set", 20)
+    ctx.require("recorded_hashes_compared", 1000)
     ctx.require("processes", len(procs))
 
 
